@@ -1967,6 +1967,17 @@ func (m *machine) lowerTailCall(si *ssa.Instruction) {
 	}
 
 	isAllRegs := stackSlotSize == 0
+	if !isDirectCall && isAllRegs {
+		// The pointer of an indirect tail call is kept in r11 (see below), which is also the last integer argument
+		// register: when the callee takes that many integer arguments there is no caller-saved register left for
+		// the pointer, so this is lowered as a regular call followed by a return, like calls with stack arguments.
+		for i := range calleeABI.Args {
+			if arg := &calleeABI.Args[i]; arg.Kind == backend.ABIArgKindReg && arg.Reg == r11VReg {
+				isAllRegs = false
+				break
+			}
+		}
+	}
 
 	switch {
 	case isDirectCall && isAllRegs:
